@@ -1,6 +1,7 @@
 package oracle
 
 import (
+	"os"
 	"bytes"
 	"encoding/json"
 	"fmt"
@@ -9,6 +10,7 @@ import (
 	"unicode/utf8"
 
 	"github.com/zmap/zlint/v3"
+	"github.com/zmap/zlint/v3/formattedoutput"
 	"github.com/zmap/zlint/v3/lint"
 
 	"verif/core"
@@ -128,6 +130,34 @@ func checkC14(ctx *core.Ctx, rep *core.Report) {
 		rep.Sample(2, map[string]interface{}{"seed": st.Seed.Name, "path": st.Path})
 	})
 	regHistories(ctx, rep, "C14", map[string]bool{"listing": true}, regHistDepth(ctx))
+	if ctx.Shard < 2 {
+		// the label space once more, from a process that has by now linted, encoded, decoded and listed — and printed the
+		// tabular summaries, the one public consumer of the status labels that lives outside package lint: "unknown
+		// labels are rejected" and "each status has its own stable label" are not properties of a fresh process only
+		if devnull, err := os.OpenFile(os.DevNull, os.O_WRONLY, 0); err == nil {
+			saved := os.Stdout
+			os.Stdout = devnull
+			for _, long := range []bool{false, true} {
+				for st := lint.LintStatus(0); st <= 7; st++ {
+					func() {
+						defer func() { _ = recover() }()
+						formattedoutput.OutputSummary(&zlint.ResultSet{Version: 3, Results: map[string]*lint.LintResult{"e_x": {Status: st, Details: "d"}, "w_y": {Status: lint.Pass}}}, long)
+					}()
+				}
+			}
+			os.Stdout = saved
+			devnull.Close()
+		}
+		before := len(rep.Violations)
+		c14Labelspace(rep)
+		if len(rep.Violations) > before {
+			rep.Note("label-space violations above were found on the SECOND pass, after the process had linted, encoded, listed and printed summaries (history-dependent)")
+		}
+		if n := len(lint.StatusLabelToLintStatus); n != 8 {
+			rep.Violate("C14|label_table_grew", fmt.Sprintf("the exported label table holds %d labels after the process has linted, encoded, listed and printed summaries (8 defined statuses)", n), map[string]interface{}{"op": "label", "item": "table"})
+		}
+		rep.Inc("label_space_passes_after_history")
+	}
 	if ctx.Shard == 0 {
 		c14WriteJSONAcrossKinds(rep) // last: it adds lints to this process's global registry
 	}
